@@ -18,8 +18,8 @@ This module also hosts the wiring resolver shared with C08 / C10 (`Wiring`).
 import ast
 
 from .. import rx
-from ..consteval import Resources, Template
-from ..core import AnalysisError, rel
+from ..consteval import Resources
+from ..core import AnalysisError
 from ..index import get_index
 
 LEVEL = 'other'
@@ -205,7 +205,6 @@ class Wiring:
                     out, seen = [], set()
                     for pc in self._param_class(owner, init, base.id):
                         for v in self.resolve(pc, expr.attr, _depth=_depth + 1):
-                            key = (v.label, id(v.value) if not isinstance(v.value, (str, int, type(None))) else v.value)
                             if (v.label, repr(v.value)[:2000]) not in seen:
                                 seen.add((v.label, repr(v.value)[:2000]))
                                 out.append(v)
@@ -522,6 +521,8 @@ MONTHS = {
 FULL_MONTHS = {c: {w: n for w, n in list(d.items())[:12]} for c, d in MONTHS.items()}
 FULL_MONTHS['german'].update({'jänner': 1, 'feber': 2})
 FULL_MONTHS['french'].update({'fevrier': 2, 'aout': 8, 'decembre': 12})
+FULL_MONTHS['spanish'].update({'setiembre': 9})
+FULL_MONTHS['portuguese'].update({'marco': 3})
 
 
 def _days(words, *extra):
